@@ -35,7 +35,10 @@ import (
 // not on a re-implementation of the status machine.
 
 type c15Step struct {
-	Kind  int  `json:"k"` // 0 NotifyJoin 1 NotifyLeave 2 NotifyUpdate 3 join intent 4 leave intent 5 local RemoveFailedNode 6 reap
+	// 0 NotifyJoin 1 NotifyLeave 2 NotifyUpdate 3 join intent 4 leave intent 5 local RemoveFailedNode 6 reap
+	// 7 reap exactly one nanosecond before (Rel<0) / after (Rel>0) the timeout of the M-th failed-or-left member runs out
+	// 8 push/pull: member M at its status time + Rel, on the left list if Prune is set; member Tag as a plain status time
+	Kind  int  `json:"k"`
 	M     int  `json:"m"`
 	Rel   int  `json:"r,omitempty"`
 	Prune bool `json:"prune,omitempty"`
@@ -47,7 +50,7 @@ type c15Case struct {
 	Members  int       `json:"members"`
 	R        int       `json:"R"`              // reconnect timeout, hours
 	T        int       `json:"T"`              // tombstone timeout, hours
-	Override []int     `json:"override"`       // per member, hours; 0 = no override
+	Override []int     `json:"override"`       // per member, hours; 0 = no override; -1 = half of whatever timeout applies
 	Real     bool      `json:"real,omitempty"` // the node's own reaper goroutine does the reaping (see bodyC15Real)
 	Steps    []c15Step `json:"steps"`
 }
@@ -55,16 +58,19 @@ type c15Case struct {
 func genC15(t *rapid.T) c15Case {
 	c := c15Case{
 		Members: rapid.IntRange(3, 6).Draw(t, "members"),
-		R:       rapid.SampledFrom([]int{4, 10}).Draw(t, "R"),
-		T:       rapid.SampledFrom([]int{10, 24}).Draw(t, "T"),
+		R:       rapid.SampledFrom([]int{4, 4, 10, 10, 30}).Draw(t, "R"), // 30: reconnect timeout above the tombstone timeout
+		T:       rapid.SampledFrom([]int{2, 10, 10, 24, 24}).Draw(t, "T"),
 	}
 	c.Real = rapid.IntRange(0, 4).Draw(t, "real") == 0
 	hours := []int{0, 40, c.R, c.R, c.T, c.T}
 	for i := 0; i < c.Members; i++ {
-		o := rapid.SampledFrom([]int{0, 0, 0, 2, 6, 16, 30}).Draw(t, "override")
+		o := rapid.SampledFrom([]int{0, 0, 0, 2, 6, 16, 30, -1}).Draw(t, "override")
 		c.Override = append(c.Override, o)
 		if o > 0 {
 			hours = append(hours, o)
+		}
+		if o < 0 {
+			hours = append(hours, c.R/2, c.T/2)
 		}
 	}
 	// usually start with everybody joined, so that failures and departures
@@ -76,9 +82,15 @@ func genC15(t *rapid.T) c15Case {
 	}
 	n := rapid.IntRange(6, 45).Draw(t, "steps")
 	for i := 0; i < n; i++ {
-		st := c15Step{Kind: rapid.SampledFrom([]int{0, 0, 1, 1, 1, 1, 1, 2, 3, 3, 4, 4, 4, 4, 5, 5, 6, 6, 6}).Draw(t, "kind"),
+		st := c15Step{Kind: rapid.SampledFrom([]int{0, 0, 1, 1, 1, 1, 1, 2, 3, 3, 4, 4, 4, 4, 5, 5, 6, 6, 6, 7, 7, 8}).Draw(t, "kind"),
 			M: rapid.IntRange(0, c.Members-1).Draw(t, "m")}
 		switch st.Kind {
+		case 7:
+			st.Rel = rapid.SampledFrom([]int{-1, 1}).Draw(t, "side")
+		case 8:
+			st.Rel = rapid.SampledFrom([]int{-1, 0, 1, 1, 2}).Draw(t, "rel")
+			st.Prune = rapid.Bool().Draw(t, "left")
+			st.Tag = rapid.IntRange(0, c.Members-1).Draw(t, "m2")
 		case 2:
 			st.Tag = rapid.IntRange(0, 3).Draw(t, "tag")
 		case 3, 4:
@@ -98,16 +110,36 @@ func genC15(t *rapid.T) c15Case {
 	return c
 }
 
+// c15Override: a fixed per-member timeout, or (negative entry) half of the
+// timeout that would apply otherwise (so the value handed to the override
+// matters: reconnect timeout for a failed member, tombstone for a left one).
 type c15Override map[string]time.Duration
 
 func (o c15Override) ReconnectTimeout(m *serf.Member, timeout time.Duration) time.Duration {
-	if d, ok := o[m.Name]; ok {
+	return o.of(m.Name, timeout)
+}
+
+func (o c15Override) of(name string, timeout time.Duration) time.Duration {
+	if d, ok := o[name]; ok {
+		if d < 0 {
+			return timeout / 2
+		}
 		return d
 	}
 	return timeout
 }
 
-func c15Name(i int) string { return fmt.Sprintf("m%d", i) }
+// Member names that are prefixes / case variants of each other or contain
+// separator characters: whatever finds a member by name has to match the
+// whole name, exactly.
+var c15Names = []string{"m0", "m0:1", "M0", "m0/x", "m 0", "m00"}
+
+func c15Name(i int) string {
+	if i >= 0 && i < len(c15Names) {
+		return c15Names[i]
+	}
+	return fmt.Sprintf("m%d", i)
+}
 
 func bodyC15(c c15Case, x *vkit.Ctx) {
 	if c.Members < 1 || c.R < 1 || c.T < 1 {
@@ -123,6 +155,8 @@ func bodyC15(c c15Case, x *vkit.Ctx) {
 	for i := 0; i < c.Members && i < len(c.Override); i++ {
 		if c.Override[i] > 0 {
 			ov[c15Name(i)] = time.Duration(c.Override[i]) * time.Hour
+		} else if c.Override[i] < 0 {
+			ov[c15Name(i)] = -1
 		}
 	}
 	nw := simnet.New(1)
@@ -215,6 +249,7 @@ func bodyC15(c c15Case, x *vkit.Ctx) {
 	tags := map[int]int{}
 	ntMixedReap, forcedLeftOfFailed, ntRejoinAfterForce := false, map[string]bool{}, false
 	reaps, prunes, reapRemoved, maxFailed, maxLeft := 0, 0, 0, 0, 0
+	boundaryReaps, pushpulls := 0, 0
 
 	for si, st := range c.Steps {
 		before := view()
@@ -329,9 +364,7 @@ func bodyC15(c c15Case, x *vkit.Ctx) {
 				default:
 					continue
 				}
-				if o, ok := ov[name]; ok {
-					timeout = o
-				}
+				timeout = ov.of(name, timeout)
 				// the member became failed/left during this case, i.e. between
 				// t0 and now; ahead and timeout differ by at least 30 minutes
 				expired := ahead > timeout
@@ -356,7 +389,103 @@ func bodyC15(c c15Case, x *vkit.Ctx) {
 			reaps++
 			reapRemoved += len(expectGone)
 			n.Serf.VerifReap(time.Now().Add(ahead))
+		case 7:
+			// The exact boundary: the pass runs one nanosecond before or after the
+			// timeout of one failed/left member runs out, counted from the instant
+			// the node recorded for it; every other entry is judged against its own
+			// recorded instant as exactly.
+			type entry struct {
+				name    string
+				since   time.Time
+				timeout time.Duration
+			}
+			var entries []entry
+			odd := false
+			for name, status := range before {
+				var timeout time.Duration
+				switch status {
+				case serf.StatusFailed:
+					timeout = time.Duration(c.R) * time.Hour
+				case serf.StatusLeft:
+					timeout = time.Duration(c.T) * time.Hour
+				default:
+					continue
+				}
+				since, ok := n.Serf.VerifLeaveTime(name)
+				if !ok || since.Before(t0) || since.After(time.Now()) {
+					odd = true // not an instant of this case: nothing to measure from
+				}
+				entries = append(entries, entry{name, since, ov.of(name, timeout)})
+			}
+			if len(entries) == 0 || odd {
+				if odd {
+					x.Label("boundary-reap-skipped-odd-leave-time")
+				}
+				continue
+			}
+			sort.Slice(entries, func(i, j int) bool { return entries[i].name < entries[j].name })
+			tg := entries[st.M%len(entries)]
+			delta := time.Nanosecond
+			if st.Rel < 0 {
+				delta = -time.Nanosecond
+			}
+			now := tg.since.Add(tg.timeout + delta)
+			what = fmt.Sprintf("reap %v relative to the end of %s's timeout (%v)", delta, tg.name, tg.timeout)
+			expN, keepN := 0, 0
+			for _, e := range entries {
+				if now.Sub(e.since) > e.timeout {
+					expectGone[e.name] = true
+					mustReapEvent[e.name] = true
+					expN++
+				} else {
+					keepN++
+				}
+			}
+			if expN > 0 && keepN > 0 {
+				ntMixedReap = true
+			}
+			boundaryReaps++
+			reaps++
+			reapRemoved += len(expectGone)
+			n.Serf.VerifReap(now)
+		case 8:
+			pp := &serf.VerifMessagePushPull{StatusLTimes: map[string]serf.LamportTime{}}
+			name := c15Name(st.M % c.Members)
+			var base uint64
+			if s, ok := n.Serf.VerifStatusLTime(name); ok {
+				base = uint64(s)
+			} else if _, lt, ok := n.Serf.VerifRecentIntent(name); ok {
+				base = uint64(lt)
+			}
+			lt := base
+			if st.Rel < 0 {
+				if lt > 0 {
+					lt--
+				}
+			} else {
+				lt = satAdd(lt, uint64(st.Rel))
+			}
+			if st.Prune {
+				// on the left list: the receiver derives a leave at status time + 1
+				pp.LeftMembers = []string{name}
+				s, known := n.Serf.VerifStatusLTime(name)
+				if known && satAdd(lt, 1) > uint64(s) && before[name] == serf.StatusFailed {
+					forcedLeftOfFailed[name] = true
+				}
+			}
+			pp.StatusLTimes[name] = serf.LamportTime(lt)
+			if other := c15Name(st.Tag % c.Members); other != name {
+				if s, ok := n.Serf.VerifStatusLTime(other); ok {
+					pp.StatusLTimes[other] = s + 1
+				}
+			}
+			mc, _, _ := n.Serf.VerifClocks()
+			pp.LTime = mc
+			what = fmt.Sprintf("push/pull status=%v left=%v", pp.StatusLTimes, pp.LeftMembers)
+			pushpulls++
+			n.Delegate.MergeRemoteState(encPushPull(pp), false)
 		}
+		isReap := st.Kind == 6 || st.Kind == 7
 
 		after := view()
 		// who disappeared?
@@ -372,7 +501,7 @@ func bodyC15(c c15Case, x *vkit.Ctx) {
 				x.Violationf("self-removed", "step %d (%s): the node removed itself from its member list", si, what)
 				return
 			}
-			if st.Kind == 6 && !expectGone[name] {
+			if isReap && !expectGone[name] {
 				x.Violationf("reaped-before-timeout", "step %d (%s): %s (%v, override %v, R=%dh T=%dh) was reaped although its timeout had not passed", si, what, name, before[name], ov[name], c.R, c.T)
 				return
 			}
@@ -384,7 +513,7 @@ func bodyC15(c c15Case, x *vkit.Ctx) {
 		sort.Strings(exp)
 		for _, name := range exp {
 			if _, still := after[name]; still {
-				if st.Kind == 6 {
+				if isReap {
 					x.Violationf("not-reaped-after-timeout", "step %d (%s): %s (%v, override %v, R=%dh T=%dh) is past its timeout but still listed (%v)", si, what, name, before[name], ov[name], c.R, c.T, after[name])
 				} else {
 					x.Violationf("pruned-member-still-listed", "step %d (%s): %s was %v before an accepted force-leave with prune and is still listed as %v", si, what, name, before[name], after[name])
@@ -420,7 +549,7 @@ func bodyC15(c c15Case, x *vkit.Ctx) {
 				}
 			}
 		}
-		if st.Kind == 6 || len(gone) > 0 {
+		if isReap || len(gone) > 0 {
 			settle(n, time.Millisecond, absorb)
 		} else {
 			poll(n, absorb)
@@ -451,6 +580,13 @@ func bodyC15(c c15Case, x *vkit.Ctx) {
 	if prunes > 0 {
 		x.Label("accepted-prune")
 	}
+	if boundaryReaps > 0 {
+		x.Label("reap-at-exact-boundary")
+	}
+	if pushpulls > 0 {
+		x.Label("push/pull")
+	}
+	x.Labelf("R%sT", map[bool]string{true: ">", false: "<="}[c.R > c.T])
 	if ntMixedReap {
 		x.Label("reap-with-expired-and-unexpired-in-one-list")
 	}
@@ -485,6 +621,8 @@ func bodyC15Real(c c15Case, x *vkit.Ctx) {
 	for i := 0; i < c.Members && i < len(c.Override); i++ {
 		if c.Override[i] > 0 {
 			ov[c15Name(i)] = dur(c.Override[i], 6)
+		} else if c.Override[i] < 0 {
+			ov[c15Name(i)] = -1 // half: tiny stays tiny (0), long stays long
 		}
 	}
 	timeoutOf := func(name string, st serf.MemberStatus) (time.Duration, bool) {
@@ -497,10 +635,7 @@ func bodyC15Real(c c15Case, x *vkit.Ctx) {
 		default:
 			return 0, false
 		}
-		if o, ok := ov[name]; ok {
-			d = o
-		}
-		return d, true
+		return ov.of(name, d), true
 	}
 	nw := simnet.New(1)
 	n, err := node.New(nw, node.Opts{Name: self, Quiet: true, Mutate: func(cf *serf.Config) {
@@ -680,7 +815,20 @@ func bodyC15Real(c c15Case, x *vkit.Ctx) {
 			} else {
 				_ = n.Serf.RemoveFailedNode(acted)
 			}
-		case 6:
+		case 8:
+			acted = c15Name(st.M % c.Members)
+			pp := &serf.VerifMessagePushPull{StatusLTimes: map[string]serf.LamportTime{}}
+			var base uint64
+			if s, ok := n.Serf.VerifStatusLTime(acted); ok {
+				base = uint64(s)
+			}
+			pp.StatusLTimes[acted] = serf.LamportTime(satAdd(base, uint64(max(st.Rel, 0))))
+			if st.Prune {
+				pp.LeftMembers = []string{acted}
+			}
+			what = fmt.Sprintf("push/pull status=%v left=%v", pp.StatusLTimes, pp.LeftMembers)
+			n.Delegate.MergeRemoteState(encPushPull(pp), false)
+		case 6, 7:
 			what = "wait for the reaper"
 			waits++
 			if !waitGone(si, what) {
